@@ -693,105 +693,209 @@ Proof.
   - intros NS. destruct (c_st cl) as [| |[] ?]; auto. exfalso. eapply NS; eauto.
 Qed.
 
-(* ---------- multi_call: request i goes to target i (the result vector is by definition
-   indexed like the request ids) ---------- *)
-Lemma ctrans_callee : forall s c cl cl', ctrans s c cl cl' -> c_callee cl' = c_callee cl.
+(* ---------- multi_call: request i goes to target i, for every run ---------- *)
+Lemma ctrans_static : forall s c cl cl', ctrans s c cl cl' ->
+  c_callee cl' = c_callee cl /\ c_tmo cl' = c_tmo cl /\ c_fwd cl' = c_fwd cl.
 Proof. intros. inversion H; subst; simpl; auto; unfold send_value, drop_sender, set_call; auto. Qed.
 
-Lemma step_callee : forall s l c cl,
+Lemma step_static : forall s l c cl,
   nth_error (calls s) c = Some cl ->
-  exists cl', nth_error (calls (step s l)) c = Some cl' /\ c_callee cl' = c_callee cl.
+  exists cl', nth_error (calls (step s l)) c = Some cl'
+              /\ c_callee cl' = c_callee cl /\ c_tmo cl' = c_tmo cl /\ c_fwd cl' = c_fwd cl.
 Proof.
   intros s l c cl N. pose proof (step_len s l) as LE. pose proof (nth_some_lt _ _ _ N) as LT.
   destruct (nth_error (calls (step s l)) c) as [cl'|] eqn:N'.
   - exists cl'. split; auto. apply step_call in N'.
     destruct N' as [(cl0 & N0 & T)|(E & _)]; [|lia].
-    rewrite N in N0. inversion N0; subst. eapply ctrans_callee; eauto.
+    rewrite N in N0. inversion N0; subst. eapply ctrans_static; eauto.
   - apply nth_error_None in N'. lia.
 Qed.
 
-Definition callee_is (s : state) (c a : nat) : Prop :=
-  exists cl, nth_error (calls s) c = Some cl /\ c_callee cl = a.
+Lemma step_groups : forall s l, groups (step s l) = groups s.
+Proof. intros. destruct l; simpl; break; reflexivity. Qed.
 
-Lemma callee_is_dstep : forall d l c a, callee_is (d_s d) c a -> callee_is (d_s (dstep d l)) c a.
+Lemma step_set_groups : forall s gs l, step (set_groups s gs) l = set_groups (step s l) gs.
+Proof. intros. destruct l; unfold set_groups; simpl; break; reflexivity. Qed.
+
+Definition sent_to (s : state) (c a : nat) (tmo : option N) : Prop :=
+  exists cl, nth_error (calls s) c = Some cl /\ c_callee cl = a /\ c_tmo cl = tmo /\ c_fwd cl = None.
+
+Lemma sent_to_step : forall s l c a tmo, sent_to s c a tmo -> sent_to (step s l) c a tmo.
 Proof.
-  intros d l c a (cl & N & E). destruct (step_callee (d_s d) l c cl N) as (cl' & N' & E').
-  exists cl'. simpl. split; auto. congruence.
+  intros s l c a tmo (cl & N & E1 & E2 & E3).
+  destruct (step_static s l c cl N) as (cl' & N' & F1 & F2 & F3). exists cl'. repeat split; congruence.
 Qed.
 
-Lemma start_only_s : forall c d, d_s (start_only c d) = step (d_s d) (Start c).
+Lemma sent_to_groups : forall s gs c a tmo, sent_to s c a tmo <-> sent_to (set_groups s gs) c a tmo.
+Proof. intros. unfold sent_to, set_groups. simpl. tauto. Qed.
+
+Lemma sent_to_abandons : forall ids s c a tmo,
+  sent_to s c a tmo -> sent_to (fold_left (fun ss i => step ss (Abandon i)) ids s) c a tmo.
+Proof. induction ids; cbn [fold_left]; intros; auto. apply IHids. apply sent_to_step. auto. Qed.
+
+Definition group_ok (s : state) (gr : cgroup) : Prop :=
+  forall i c, nth_error (gg_ids gr) i = Some c ->
+    exists a, nth_error (gg_targets gr) i = Some a /\ sent_to s c a (gg_tmo gr).
+
+Definition InvG (s : state) : Prop :=
+  (forall g gr, nth_error (groups s) g = Some gr -> group_ok s gr)
+  /\ (forall g1 g2 gr1 gr2 i1 i2 c,
+        nth_error (groups s) g1 = Some gr1 -> nth_error (groups s) g2 = Some gr2 ->
+        nth_error (gg_ids gr1) i1 = Some c -> nth_error (gg_ids gr2) i2 = Some c -> g1 = g2 /\ i1 = i2).
+
+Lemma abandons_groups : forall ids s, groups (fold_left (fun ss i => step ss (Abandon i)) ids s) = groups s.
+Proof. induction ids; cbn [fold_left]; intros; auto. rewrite IHids. apply step_groups. Qed.
+
+Lemma abandons_len : forall ids s, (length (calls s) <= length (calls (fold_left (fun ss i => step ss (Abandon i)) ids s)))%nat.
 Proof.
-  intros. unfold start_only. cbv zeta.
-  match goal with |- d_s (match ?x with _ => _ end) = _ => destruct x as [cl|] end;
-    [destruct (c_st cl)|]; reflexivity.
+  induction ids; cbn [fold_left]; intros; auto. eapply Nat.le_trans; [|apply IHids]. apply step_len.
 Qed.
 
-Lemma fold_abandon_callee : forall ids d c a,
-  callee_is (d_s d) c a -> callee_is (d_s (fold_left (fun dd i => dstep dd (Abandon i)) ids d)) c a.
-Proof. induction ids; simpl; intros; auto. apply IHids. apply callee_is_dstep. auto. Qed.
-
-Theorem multi_order : forall ts tmo d ids d' ids' failed,
-  multi_send ts tmo d ids = (d', ids', failed) ->
-  (forall i c a, nth_error ids i = Some c -> callee_is (d_s d) c a -> callee_is (d_s d') c a)
-  /\ exists new, ids' = ids ++ new
-     /\ (failed = false -> length new = length ts)
-     /\ forall i c a, nth_error new i = Some c -> nth_error ts i = Some a -> callee_is (d_s d') c a.
+Lemma InvG_xstep : forall s x, InvG s -> InvG (xstep s x).
 Proof.
-  induction ts as [|a ts IH]; simpl; intros tmo d ids d' ids' failed H.
-  - inversion H; subst. split; auto. exists []. rewrite app_nil_r. repeat split; auto.
-    intros i c a N. destruct i; discriminate.
-  - set (c := length (calls (d_s d))) in *.
-    set (d1 := start_only c (dstep d (NewCall a tmo None))) in *.
-    assert (S1 : d_s d1 = step (step (d_s d) (NewCall a tmo None)) (Start c)).
-    { unfold d1. rewrite start_only_s. reflexivity. }
-    assert (KEEP : forall c0 a0, callee_is (d_s d) c0 a0 -> callee_is (d_s d1) c0 a0).
-    { intros c0 a0 (cl & N & E). rewrite S1.
-      destruct (step_callee (d_s d) (NewCall a tmo None) c0 cl N) as (cl1 & N1 & E1).
-      destruct (step_callee _ (Start c) c0 cl1 N1) as (cl2 & N2 & E2). exists cl2. split; auto. congruence. }
-    assert (NEW : callee_is (d_s d1) c a).
-    { rewrite S1.
-      assert (N0 : nth_error (calls (step (d_s d) (NewCall a tmo None))) c = Some (fresh a tmo None)).
-      { simpl. rewrite nth_error_app2 by (unfold c; lia). unfold c. rewrite Nat.sub_diag. reflexivity. }
-      destruct (step_callee _ (Start c) c _ N0) as (cl2 & N2 & E2). exists cl2. split; auto. }
-    destruct (nth_error (calls (d_s d1)) c) as [cl|] eqn:NC.
-    + destruct (c_st cl) eqn:ST.
-      * (* not waiting: refused *)
-        inversion H; subst. split.
-        -- intros. apply fold_abandon_callee. auto.
-        -- exists [c]. repeat split; auto; try discriminate.
-           intros i c0 a0 N1 N2. destruct i; simpl in *; [|destruct i; discriminate].
-           inversion N1; inversion N2; subst. apply fold_abandon_callee. auto.
-      * destruct (IH tmo d1 (ids ++ [c]) d' ids' failed H) as (K & new & E & L & P).
-        split.
-        -- intros i c0 a0 N1 C1. eapply (K i); eauto. rewrite nth_error_app1; auto. eapply nth_some_lt; eauto.
-        -- exists (c :: new). rewrite <- app_assoc in E. simpl in E. repeat split; auto.
-           ++ intro F. simpl. rewrite L; auto.
-           ++ intros i c0 a0 N1 N2. destruct i; simpl in *.
-              ** inversion N1; inversion N2; subst.
-                 eapply (K (length ids)); eauto. rewrite nth_error_app2, Nat.sub_diag; auto.
-              ** eapply P; eauto.
-      * inversion H; subst. split.
-        -- intros. apply fold_abandon_callee. auto.
-        -- exists [c]. repeat split; auto; try discriminate.
-           intros i c0 a0 N1 N2. destruct i; simpl in *; [|destruct i; discriminate].
-           inversion N1; inversion N2; subst. apply fold_abandon_callee. auto.
+  intros s x (GO & GD). destruct x as [l|ts tmo|g]; cbn [xstep].
+  - (* an ordinary label: groups untouched, calls keep their identity *)
+    unfold InvG. rewrite step_groups. split; auto.
+    intros g gr N i c NI. destruct (GO _ _ N i c NI) as (a & NT & ST). exists a. split; auto.
+    apply sent_to_step. auto.
+  - unfold set_groups. split.
+    + intros g gr N. simpl in N. apply nth_snoc in N. destruct N as [N|(_ & ->)].
+      * intros i c NI. destruct (GO _ _ N i c NI) as (a & NT & ST). exists a. split; auto; try (apply sent_to_groups; auto).
+      * intros i c NI. destruct i; discriminate.
+    + simpl. intros g1 g2 gr1 gr2 i1 i2 c N1 N2 I1 I2.
+      apply nth_snoc in N1. apply nth_snoc in N2.
+      destruct N1 as [N1|(_ & ->)]; [|destruct i1; discriminate].
+      destruct N2 as [N2|(_ & ->)]; [|destruct i2; discriminate]. eauto.
+  - destruct (nth_error (groups s) g) as [gr|] eqn:NG; [|split; auto].
+    destruct (gg_failed gr) eqn:GF; [split; auto|].
+    destruct (nth_error (gg_targets gr) (length (gg_ids gr))) as [a|] eqn:NT; [|split; auto].
+    set (c := length (calls s)).
+    set (s1 := step (step s (NewCall a (gg_tmo gr) None)) (Start c)).
+    assert (G1 : groups s1 = groups s) by (unfold s1; rewrite !step_groups; auto).
+    assert (KEEP : forall c0 a0 t0, sent_to s c0 a0 t0 -> sent_to s1 c0 a0 t0).
+    { intros. unfold s1. apply sent_to_step. apply sent_to_step. auto. }
+    assert (NEW : sent_to s1 c a (gg_tmo gr)).
+    { unfold s1. apply sent_to_step. exists (fresh a (gg_tmo gr) None). simpl.
+      rewrite nth_error_app2 by (unfold c; lia). unfold c. rewrite Nat.sub_diag. simpl. auto. }
+    assert (FRESH : forall g2 gr2 i2, nth_error (groups s) g2 = Some gr2 -> nth_error (gg_ids gr2) i2 <> Some c).
+    { intros g2 gr2 i2 N2 I2. destruct (GO _ _ N2 _ _ I2) as (a2 & _ & (cl & NC & _)).
+      apply nth_some_lt in NC. unfold c in NC. lia. }
+    assert (MAIN : forall s2 fl, groups s2 = groups s ->
+              (forall c0 a0 t0, sent_to s1 c0 a0 t0 -> sent_to s2 c0 a0 t0) ->
+              InvG (set_groups s2 (upd (groups s2) g (mkCG (gg_targets gr) (gg_tmo gr) (gg_ids gr ++ [c]) fl)))).
+    { intros s2 fl G2 K2. rewrite G2. split.
+      - intros g0 gr0 N0. simpl in N0. apply nth_upd in N0.
+        destruct N0 as [(-> & -> & _)|(NE & N0)].
+        + intros i c0 NI. simpl in *. apply nth_snoc in NI. destruct NI as [NI|(-> & ->)].
+          * destruct (GO _ _ NG i c0 NI) as (a0 & NT0 & ST0). exists a0. split; auto; try (apply sent_to_groups; auto).
+          * exists a. split; auto; try (apply sent_to_groups; auto).
+        + intros i c0 NI. destruct (GO _ _ N0 i c0 NI) as (a0 & NT0 & ST0). exists a0. split; auto; try (apply sent_to_groups; auto).
+      - simpl. intros g1 g2 gr1 gr2 i1 i2 c0 N1 N2 I1 I2.
+        apply nth_upd in N1. apply nth_upd in N2.
+        destruct N1 as [(<- & -> & _)|(NE1 & N1)]; destruct N2 as [(<- & -> & _)|(NE2 & N2)]; simpl in *.
+        + split; auto. apply nth_snoc in I1. apply nth_snoc in I2.
+          destruct I1 as [I1|(-> & ->)]; destruct I2 as [I2|(-> & E2)]; auto.
+          * eapply (GD g g); eauto.
+          * subst c0. exfalso. eapply FRESH; eauto.
+          * exfalso. eapply FRESH; eauto.
+        + apply nth_snoc in I1. destruct I1 as [I1|(-> & ->)].
+          * eapply GD; eauto.
+          * exfalso. eapply FRESH; eauto.
+        + apply nth_snoc in I2. destruct I2 as [I2|(-> & ->)].
+          * eapply GD; eauto.
+          * exfalso. eapply FRESH; eauto.
+        + eapply GD; eauto. }
+    fold c. fold s1.
+    destruct (nth_error (calls s1) c) as [cl|] eqn:NC.
+    + destruct (c_st cl); apply MAIN; auto;
+        try (rewrite abandons_groups; auto); try (intros; apply sent_to_abandons; auto).
     + destruct NEW as (cl & N & _). congruence.
 Qed.
 
-Lemma gres_vector : forall s g rs tt,
-  gres_of s g = GOk rs tt ->
-  rs = map (fun c => match nth_error (calls s) c with Some cl => fst (ores_of (c_st cl)) | None => OPending end) (g_ids g).
+Lemma xrun_snoc : forall xls x s, xrun (xls ++ [x]) s = xstep (xrun xls s) x.
+Proof. intros. unfold xrun. rewrite fold_left_app. reflexivity. Qed.
+
+Lemma InvG_xrun : forall xls t n, InvG (xrun xls (init t n)).
 Proof.
-  unfold gres_of. intros s g rs tt H.
-  destruct (negb (g_started g)); [discriminate|]. destruct (g_failed g); [discriminate|].
-  destruct (all_done s (g_ids g)); [|discriminate]. inversion H. reflexivity.
+  induction xls using rev_ind; intros.
+  - split; simpl; intros; destruct g || destruct g1; discriminate.
+  - rewrite xrun_snoc. apply InvG_xstep. auto.
+Qed.
+
+(* C09_multi_order: for every run -- any interleaving of several multi_calls' send loops with
+   everything else, targets exiting at any moment -- and every multi_call in it:
+   request i was created for target i with this call's timeout and stays addressed to it;
+   no request belongs to two multi_calls or two positions; and the vector handed to the caller
+   has one entry per target, entry i being the outcome of request i (hence of the port that was
+   sent to target i) *)
+Theorem multi_order : forall xls t n g gr,
+  let s := xrun xls (init t n) in
+  nth_error (groups s) g = Some gr ->
+  (forall i c, nth_error (gg_ids gr) i = Some c ->
+     exists a, nth_error (gg_targets gr) i = Some a /\ sent_to s c a (gg_tmo gr))
+  /\ (forall g2 gr2 i1 i2 c, nth_error (groups s) g2 = Some gr2 ->
+        nth_error (gg_ids gr) i1 = Some c -> nth_error (gg_ids gr2) i2 = Some c -> g = g2 /\ i1 = i2)
+  /\ (forall rs tt, gres_of s gr = GOk rs tt ->
+        length rs = length (gg_targets gr)
+        /\ forall i c, nth_error (gg_ids gr) i = Some c -> nth_error rs i = Some (res_of s c)).
+Proof.
+  intros xls t n g gr s N. subst s. destruct (InvG_xrun xls t n) as (GO & GD).
+  split; [apply (GO _ _ N)|]. split; [intros; eapply GD; eauto|].
+  intros rs tt H. unfold gres_of in H. destruct (gg_failed gr); [discriminate|].
+  destruct (Nat.eqb (length (gg_ids gr)) (length (gg_targets gr))) eqn:E; simpl in H; [|discriminate].
+  destruct (all_done _ _); [|discriminate]. inversion H; subst. apply Nat.eqb_eq in E.
+  split; [rewrite map_length; auto|]. intros i c NI. rewrite nth_error_map, NI. reflexivity.
+Qed.
+
+(* the states of x-runs are states of ordinary runs (plus the multi_call bookkeeping): every
+   theorem above about `run` applies to them *)
+Theorem xrun_core : forall xls t n,
+  exists ls, xrun xls (init t n) = set_groups (run ls (init t n)) (groups (xrun xls (init t n))).
+Proof.
+  induction xls using rev_ind; intros.
+  - exists []. reflexivity.
+  - rewrite xrun_snoc. destruct (IHxls t n) as (ls & E). set (r := run ls (init t n)) in *.
+    set (sx := xrun xls (init t n)) in *.
+    assert (STEPS : forall ls2, fold_left step ls2 sx = set_groups (run (ls ++ ls2) (init t n)) (groups sx)).
+    { intros ls2. rewrite run_app. fold r. rewrite E at 1. generalize r. clear.
+      induction ls2; simpl; intros; auto. rewrite step_set_groups. rewrite IHls2.
+      f_equal. }
+    assert (FM : forall ids ss, fold_left step (map Abandon ids) ss
+                               = fold_left (fun s0 i => step s0 (Abandon i)) ids ss).
+    { induction ids; cbn [fold_left map]; auto. }
+    destruct x as [l|ts tmo|g]; cbn [xstep].
+    + exists (ls ++ [l]). pose proof (STEPS [l]) as S1. cbn [fold_left] in S1.
+      rewrite step_groups. exact S1.
+    + exists ls. rewrite E at 1. reflexivity.
+    + destruct (nth_error (groups sx) g) as [gr|]; [|exists ls; auto].
+      destruct (gg_failed gr); [exists ls; auto|].
+      destruct (nth_error (gg_targets gr) (length (gg_ids gr))) as [a|]; [|exists ls; auto].
+      set (c := length (calls sx)).
+      pose proof (STEPS [NewCall a (gg_tmo gr) None; Start c]) as S1. cbn [fold_left] in S1.
+      pose proof (STEPS ([NewCall a (gg_tmo gr) None; Start c] ++ map Abandon (gg_ids gr))) as S2.
+      rewrite fold_left_app in S2. cbn [fold_left] in S2. rewrite FM in S2.
+      destruct (nth_error (calls (step (step sx (NewCall a (gg_tmo gr) None)) (Start c))) c) as [cl|].
+      * destruct (c_st cl); eexists; try (rewrite S2; reflexivity); rewrite S1; reflexivity.
+      * eexists. rewrite S1 at 1. rewrite S1. reflexivity.
+Qed.
+
+Theorem success_sound_x : forall xls t n c cl v tt,
+  let s := xrun xls (init t n) in
+  nth_error (calls s) c = Some cl -> c_st cl = CGot (RSuccess v) tt ->
+  first_reply c (replies s) = Some v.
+Proof.
+  intros xls t n c cl v tt s N ST. subst s. destruct (xrun_core xls t n) as (ls & E).
+  rewrite E in *. simpl in *. eapply success_sound; eauto.
 Qed.
 
 (* ---------- the deterministic driver only ever performs model steps ---------- *)
-Definition R (n : nat) (d : drv) : Prop := d_s d = run (rev (d_ls d)) (init 0 n).
+Definition R (n : nat) (d : drv) : Prop := d_s d = xrun (rev (d_ls d)) (init 0 n).
 
 Lemma R_dstep : forall n d l, R n d -> R n (dstep d l).
-Proof. unfold R, dstep, with_s. intros. simpl. rewrite run_snoc. congruence. Qed.
+Proof. unfold R, dstep, with_s. intros. simpl. rewrite xrun_snoc. simpl. congruence. Qed.
+
+Lemma R_dxstep : forall n d x, R n d -> R n (dxstep d x).
+Proof. unfold R, dxstep, with_s. intros. simpl. rewrite xrun_snoc. congruence. Qed.
 
 Lemma R_eq : forall n d d', d_s d' = d_s d -> d_ls d' = d_ls d -> R n d -> R n d'.
 Proof. unfold R. intros. congruence. Qed.
@@ -853,31 +957,26 @@ Proof.
   destruct (c_fwd c0); auto with rdb.
 Qed.
 
-Lemma R_fold_abandon : forall n ids d, R n d -> R n (fold_left (fun dd i => dstep dd (Abandon i)) ids d).
-Proof. induction ids; simpl; intros; auto with rdb. Qed.
-
-Lemma R_multi_send : forall n ts tmo d ids, R n d -> R n (fst (fst (multi_send ts tmo d ids))).
-Proof.
-  induction ts; simpl; intros; auto.
-  set (c := length (calls (d_s d))).
-  set (d1 := start_only c (dstep d (NewCall a tmo None))).
-  assert (R1 : R n d1) by (unfold d1; auto with rdb).
-  destruct (nth_error (calls (d_s d1)) c) as [cl|]; simpl; auto.
-  destruct (c_st cl); simpl; auto using R_fold_abandon.
-Qed.
-
 Lemma R_fold_push : forall n ids d, R n d -> R n (fold_left (fun dd c => dpush dd (TPoll c)) ids d).
 Proof. induction ids; simpl; intros; auto with rdb. Qed.
 
+Lemma R_multi_loop : forall n f g d, R n d -> R n (multi_loop f g d).
+Proof.
+  induction f; cbn [multi_loop]; intros; auto.
+  destruct (nth_error (groups (d_s d)) g) as [gr|]; auto. destruct (gg_failed gr); auto.
+  destruct (nth_error (gg_targets gr) (length (gg_ids gr))); auto.
+  cbv zeta. apply IHf. pose proof (R_dxstep n d (XMultiSend g) H) as RX.
+  set (d1 := dxstep d (XMultiSend g)) in *.
+  destruct (nth_error (groups (d_s d1)) g) as [gr1|]; auto.
+  destruct (gg_failed gr1); auto with rdb.
+Qed.
+
 Lemma R_run_multi : forall n g d, R n d -> R n (run_multi g d).
 Proof.
-  unfold run_multi. intros. destruct (nth_error (d_groups d) g) as [gr|]; auto.
-  destruct (g_started gr); auto.
-  pose proof (R_multi_send n (g_targets gr) (g_tmo gr) d [] H) as RM.
-  destruct (multi_send (g_targets gr) (g_tmo gr) d []) as [[d1 ids] failed]. simpl in RM.
-  assert (RU : R n (upd_group d1 g (mkGroup (g_targets gr) (g_tmo gr) ids failed true))).
-  { eapply R_eq; eauto. }
-  destruct failed; auto. apply R_fold_push. auto.
+  unfold run_multi. intros. destruct (nth_error (groups (d_s d)) g) as [gr|]; auto.
+  pose proof (R_multi_loop n (S (length (gg_targets gr))) g d H) as RM. cbv zeta.
+  destruct (nth_error (groups (d_s (multi_loop (S (length (gg_targets gr))) g d))) g) as [gr1|]; auto.
+  destruct (gg_failed gr1); auto. apply R_fold_push. auto.
 Qed.
 
 Lemma R_settle : forall n tf f d, R n d -> R n (settle tf f d).
@@ -900,7 +999,7 @@ Proof.
   intros n tf f d o H. destruct o; unfold exec_op_gen.
   - auto with rdb.
   - auto with rdb.
-  - apply R_dpush. eapply R_eq; eauto.
+  - apply R_dpush. apply R_dxstep. auto.
   - destruct (assoc c (d_plans d)); auto.
     assert (R n (add_plan d c p)) by (eapply R_eq; eauto).
     destruct (nth_error (calls (d_s d)) c); auto.
@@ -919,7 +1018,7 @@ Qed.
 
 (* every scenario of the correspondence check is a run of the model: all theorems above apply
    to the states the driver reaches *)
-Theorem exec_is_run : forall n ops, d_s (exec n ops) = run (rev (d_ls (exec n ops))) (init 0 n).
+Theorem exec_is_run : forall n ops, d_s (exec n ops) = xrun (rev (d_ls (exec n ops))) (init 0 n).
 Proof.
   intros. unfold exec, exec_op. generalize FUEL. intro f.
   assert (G : forall ops d, R n d -> R n (fold_left (exec_op_gen f f) ops d)).
